@@ -273,3 +273,9 @@ def name_concatenations(min_names=1, max_names=12):
 def paste_opt():
     """None (three times in four) or the number of a pasted spelling (util.pasted_k) under which the object is built."""
     return st.one_of(st.none(), st.none(), st.none(), st.integers(0, 6))
+
+
+def child_opt():
+    """None (three times in four) or the description of a shuffled child (tape seed, frozen positions) on which the property is checked as well."""
+    return st.one_of(st.none(), st.none(), st.none(),
+                     st.fixed_dictionaries({"tape": st.integers(0, 10 ** 6), "frozen": st.lists(st.integers(0, 40), max_size=4, unique=True)}))
